@@ -51,7 +51,9 @@ var interpOK = map[string]bool{"errors": true, "sort": true, "slices": true, "cm
 	"internal/filepathlite": true, "internal/itoa": true}
 
 // single functions of otherwise modelled packages that are pure and may be interpreted
-var interpOKFunc = map[string]bool{"os.IsPathSeparator": true}
+var interpOKFunc = map[string]bool{"os.IsPathSeparator": true,
+	"(io/fs.FileMode).IsDir": true, "(io/fs.FileMode).IsRegular": true, "(io/fs.FileMode).Perm": true, "(io/fs.FileMode).Type": true,
+	"(time.Duration).Hours": true, "(time.Duration).Minutes": true, "io.ReadAll": true, "io/ioutil.ReadAll": true}
 
 func fnPkgPath(fn *ssa.Function) string {
 	if fn.Pkg != nil {
@@ -102,9 +104,35 @@ func (m *Machine) constValue(c *ssa.Const) Value {
 	panic(fmt.Sprintf("constValue: %v : %v", c, c.Type()))
 }
 
+// sentinelErrs: package-level error variables of modelled packages.
+var sentinelErrs = map[string]string{
+	"os.ErrNotExist": "ENOENT", "io/fs.ErrNotExist": "ENOENT", "os.ErrExist": "EEXIST", "io/fs.ErrExist": "EEXIST",
+	"os.ErrPermission": "EPERM", "io/fs.ErrPermission": "EPERM", "os.ErrClosed": "ECLOSED", "io/fs.ErrClosed": "ECLOSED",
+	"os.ErrInvalid": "EINVAL", "io/fs.ErrInvalid": "EINVAL",
+	"io.EOF": "EOF", "io.ErrUnexpectedEOF": "UNEXPECTEDEOF", "io.ErrShortWrite": "SHORTWRITE", "io.ErrClosedPipe": "CLOSEDPIPE",
+	"os/exec.ErrNotFound": "EXECNOTFOUND",
+}
+
 func (m *Machine) globalPtr(g *ssa.Global) *Value {
 	if p, ok := m.globals[g]; ok {
 		return p
+	}
+	if g.Pkg != nil && !strings.HasPrefix(g.Pkg.Pkg.Path(), modPrefix) {
+		path := g.Pkg.Pkg.Path()
+		if kind, ok := sentinelErrs[path+"."+g.Name()]; ok {
+			p := new(Value)
+			*p = m.errVal("sentinel:"+kind, strings.ToLower(kind))
+			m.globals[g] = p
+			return p
+		}
+		if interpOK[path] && !m.initDone[g.Pkg] {
+			// a package-level variable of a library whose source is interpreted: run the
+			// package's initialiser (tables such as strings.asciiSpace) once per path
+			m.runLibInit(g.Pkg)
+			if p, ok := m.globals[g]; ok {
+				return p
+			}
+		}
 	}
 	p := new(Value)
 	*p = zero(g.Type().(*types.Pointer).Elem())
@@ -222,9 +250,52 @@ func (m *Machine) callBody(fn *ssa.Function, args []Value, env []Value) Value {
 		g.depth = 0
 		panic(goPanic{msg: "fatal error: stack overflow (call depth exceeded in " + name + ")"})
 	}
-	m.runFrame(fr)
+	m.runFrameDefers(fr, g, g.depth)
 	g.depth--
 	return fr.result
+}
+
+// runFrameDefers runs a frame with Go's panic semantics: when a Go panic unwinds through a
+// frame that has deferred calls, they run; if one of them calls recover() the panic stops
+// and the function returns through its Recover block (named results) or with zero results.
+func (m *Machine) runFrameDefers(fr *frame, g *G, depth int) {
+	defer func() {
+		r := recover()
+		if r == nil {
+			return
+		}
+		gp, ok := r.(goPanic)
+		if !ok || len(fr.defers) == 0 || m.cur != g {
+			panic(r)
+		}
+		g.depth = depth
+		savedP, savedR := g.panicking, g.recovered
+		g.panicking, g.recovered = &gp, false
+		m.runDefers(fr)
+		rec := g.recovered
+		g.panicking, g.recovered = savedP, savedR
+		if !rec {
+			panic(gp)
+		}
+		if fr.fn.Recover != nil {
+			m.runFrameFrom(fr, fr.fn.Recover)
+			return
+		}
+		res := fr.fn.Signature.Results()
+		switch res.Len() {
+		case 0:
+			fr.result = nil
+		case 1:
+			fr.result = zero(res.At(0).Type())
+		default:
+			t := make(Tuple, res.Len())
+			for i := range t {
+				t[i] = zero(res.At(i).Type())
+			}
+			fr.result = t
+		}
+	}()
+	m.runFrame(fr)
 }
 
 type intrinsicFallback struct{}
@@ -233,7 +304,7 @@ type intrinsicFallback struct{}
 // library function is pure Go that may be interpreted, it asks for the fallback.
 func (m *Machine) tryIntrinsic(in intrinsic, fn *ssa.Function, args []Value) (res Value, fallback bool) {
 	prev := m.inIntrinsic
-	if fn.Blocks != nil && interpOK[fnPkgPath(fn)] {
+	if fn.Blocks != nil && (interpOK[fnPkgPath(fn)] || interpOKFunc[fn.String()]) {
 		m.inIntrinsic = fn
 	} else {
 		m.inIntrinsic = nil
@@ -263,9 +334,10 @@ func (m *Machine) runDefers(fr *frame) {
 	}
 }
 
-func (m *Machine) runFrame(fr *frame) {
+func (m *Machine) runFrame(fr *frame) { m.runFrameFrom(fr, fr.fn.Blocks[0]) }
+
+func (m *Machine) runFrameFrom(fr *frame, block *ssa.BasicBlock) {
 	var prev *ssa.BasicBlock
-	block := fr.fn.Blocks[0]
 	for {
 		var next *ssa.BasicBlock
 	instrs:
@@ -478,7 +550,18 @@ func (m *Machine) evalValue(fr *frame, v ssa.Value) Value {
 	case *ssa.ChangeType:
 		return m.get(fr, x.X)
 	case *ssa.Convert:
-		return m.convert(x.X.Type(), x.Type(), m.get(fr, x.X))
+		r := m.convert(x.X.Type(), x.Type(), m.get(fr, x.X))
+		if sb, ok := r.(*SymBytes); ok && !symBytesOnlyForModels(x) {
+			// []byte(s) of a symbolic string that the code indexes, slices, ranges over or
+			// hands to code without a model: a real slice of (symbolic) bytes of decided length
+			n := int(m.Concretize(sb.S.Len, false))
+			sl := make(Slice, n)
+			for i := 0; i < n; i++ {
+				sl[i] = m.normScalar(sb.S.Ch[i])
+			}
+			return sl
+		}
+		return r
 	case *ssa.ChangeInterface:
 		return m.get(fr, x.X)
 	case *ssa.MakeInterface:
@@ -521,6 +604,11 @@ func (m *Machine) evalValue(fr *frame, v ssa.Value) Value {
 		return copyVal(m.get(fr, x.X).(Struct)[x.Field])
 	case *ssa.IndexAddr:
 		base := m.get(fr, x.X)
+		if it, isSymIdx := m.get(fr, x.Index).(*sym.Term); isSymIdx {
+			if se := m.symTableElem(x, base, it); se != nil {
+				return se
+			}
+		}
 		i := m.toInt(m.get(fr, x.Index))
 		switch b := base.(type) {
 		case Slice:
@@ -606,6 +694,9 @@ func (m *Machine) unop(fr *frame, x *ssa.UnOp) Value {
 	v := m.get(fr, x.X)
 	switch x.Op {
 	case token.MUL:
+		if se, ok := v.(*symElem); ok {
+			return m.symTableLoad(se)
+		}
 		p := v.(*Value)
 		if p == nil {
 			panic(goPanic{msg: fmt.Sprintf("nil pointer dereference in %s", fr.fn)})
@@ -790,6 +881,26 @@ func (m *Machine) callBuiltin(b *ssa.Builtin, args []Value, site *ssa.Call) Valu
 				s = append(s, int64(y[i]))
 			}
 			return s
+		case *sym.Str, *SymBytes:
+			// append([]byte, symbolic string...): the length is decided, the bytes stay symbolic
+			var str *sym.Str
+			if sb, ok := y.(*SymBytes); ok {
+				str = sb.S
+			} else {
+				str = y.(*sym.Str)
+			}
+			s, ok := args[0].(Slice)
+			if !ok && !isNilValue(args[0]) {
+				if sb0, isSB := args[0].(*SymBytes); isSB {
+					return &SymBytes{S: m.C.Concat(sb0.S, str)}
+				}
+				m.unsupported("append to %T", args[0])
+			}
+			n := int(m.Concretize(str.Len, false))
+			for i := 0; i < n; i++ {
+				s = append(s, m.normScalar(str.Ch[i]))
+			}
+			return s
 		}
 	case "copy":
 		dst := args[0].(Slice)
@@ -840,6 +951,14 @@ func (m *Machine) callBuiltin(b *ssa.Builtin, args []Value, site *ssa.Call) Valu
 	case "print", "println":
 		return nil
 	case "recover":
+		if g := m.cur; g != nil && g.panicking != nil {
+			gp := g.panicking
+			g.panicking, g.recovered = nil, true
+			if gp.val != nil {
+				return gp.val
+			}
+			return m.errVal("runtime", gp.msg)
+		}
 		return Iface{}
 	case "min", "max":
 		if a, ok := args[0].(int64); ok {
@@ -979,6 +1098,10 @@ func (m *Machine) rangeOver(fr *frame, x *ssa.Range) Value {
 		return it
 	case string:
 		return &mapIter{str: b}
+	case *sym.Str:
+		// symbolic strings are ASCII: the length is decided, the runes stay symbolic
+		n := int(m.Concretize(b.Len, false))
+		return &mapIter{str: b, symN: n}
 	}
 	m.unsupported("range over %T", v)
 	return nil
@@ -986,6 +1109,14 @@ func (m *Machine) rangeOver(fr *frame, x *ssa.Range) Value {
 
 func (m *Machine) next(x *ssa.Next, it *mapIter) Value {
 	if x.IsString {
+		if ss, ok := it.str.(*sym.Str); ok {
+			if it.i >= it.symN {
+				return Tuple{false, int64(0), int64(0)}
+			}
+			idx := it.i
+			it.i++
+			return Tuple{true, int64(idx), m.normScalar(m.C.Zext(ss.Ch[idx], 32))}
+		}
 		s := it.str.(string)
 		if it.i >= len(s) {
 			return Tuple{false, int64(0), int64(0)}
@@ -1038,4 +1169,145 @@ func (m *Machine) mapGetNoFork(mp *Map, key Value) (Value, bool) {
 		}
 	}
 	return nil, false
+}
+
+// runLibInit interprets the synthetic init function of an allow-listed pure library
+// package (initialisers of its package-level variables). Nested inits of imported packages
+// are not run from here (they run on demand when one of their variables is read).
+func (m *Machine) runLibInit(pkg *ssa.Package) {
+	if m.initDone == nil {
+		m.initDone = map[*ssa.Package]bool{}
+	}
+	m.initDone[pkg] = true
+	initf := pkg.Func("init")
+	if initf == nil || initf.Blocks == nil {
+		return
+	}
+	savedMerge, savedRace, savedIn := m.merge, m.race, m.inIntrinsic
+	m.merge, m.race, m.inIntrinsic = nil, nil, nil
+	defer func() { m.merge, m.race, m.inIntrinsic = savedMerge, savedRace, savedIn }()
+	m.callBody(initf, nil, nil)
+}
+
+// symElem is the address of an element of a table of concrete scalars selected by a
+// symbolic index; it can only be loaded from (the load builds an if-then-else over the
+// possible entries instead of forking over the index values).
+type symElem struct {
+	elems []Value
+	idx   *sym.Term
+	et    types.Type
+}
+
+func (m *Machine) symTableElem(x *ssa.IndexAddr, base Value, idx *sym.Term) *symElem {
+	if refs := x.Referrers(); refs != nil {
+		for _, r := range *refs {
+			u, ok := r.(*ssa.UnOp)
+			if !ok || u.Op != token.MUL {
+				if _, dbg := r.(*ssa.DebugRef); !dbg {
+					return nil
+				}
+			}
+		}
+	} else {
+		return nil
+	}
+	var elems []Value
+	switch b := base.(type) {
+	case Slice:
+		elems = b
+	case *Value:
+		if b == nil {
+			return nil
+		}
+		a, ok := (*b).(Array)
+		if !ok {
+			return nil
+		}
+		elems = a
+	default:
+		return nil
+	}
+	if len(elems) == 0 || len(elems) > 512 {
+		return nil
+	}
+	et := x.Type().(*types.Pointer).Elem()
+	if _, _, ok := isInteger(et); !ok && !isBool(et) {
+		return nil
+	}
+	for _, e := range elems {
+		switch e.(type) {
+		case int64, bool:
+		default:
+			return nil
+		}
+	}
+	// bounds: out of range is a panic on its own path
+	c := m.C
+	in := c.T
+	if idx.Width >= 63 || uint64(len(elems)) < uint64(1)<<uint(idx.Width) {
+		in = c.Ult(idx, c.BV(idx.Width, uint64(len(elems))))
+	}
+	if !m.Decide(in) {
+		panic(goPanic{msg: fmt.Sprintf("index out of range [symbolic] with length %d", len(elems))})
+	}
+	return &symElem{elems: elems, idx: idx, et: et}
+}
+
+func (m *Machine) symTableLoad(se *symElem) Value {
+	c := m.C
+	var acc *sym.Term
+	lift := func(v Value) *sym.Term {
+		if isBool(se.et) {
+			return m.boolTerm(v)
+		}
+		return m.intTerm(v, se.et)
+	}
+	for i := len(se.elems) - 1; i >= 0; i-- {
+		hit := c.Eq(se.idx, c.BV(se.idx.Width, uint64(i)))
+		if hit.IsFalse() {
+			continue
+		}
+		if acc == nil {
+			acc = lift(se.elems[i])
+			continue
+		}
+		acc = c.Ite(hit, lift(se.elems[i]), acc)
+	}
+	if acc == nil {
+		acc = lift(se.elems[0])
+	}
+	if isBool(se.et) {
+		return m.normBool(acc)
+	}
+	return m.normScalar(acc)
+}
+
+// symBytesOnlyForModels: every use of the converted value is an argument of a call to a
+// modelled library function, a conversion back to string, or len.
+func symBytesOnlyForModels(x *ssa.Convert) bool {
+	refs := x.Referrers()
+	if refs == nil {
+		return true
+	}
+	for _, r := range *refs {
+		switch u := r.(type) {
+		case *ssa.DebugRef, *ssa.Convert:
+		case *ssa.Call:
+			switch c := u.Call.Value.(type) {
+			case *ssa.Builtin:
+				if c.Name() != "len" {
+					return false
+				}
+			case *ssa.Function:
+				if _, ok := intrinsics[c.String()]; !ok {
+					return false
+				}
+			default:
+				return false
+			}
+		default:
+			return false
+		}
+	}
+	return true
 }
